@@ -4,6 +4,7 @@
   through the options of the group together with `GroupInv`; facts about `groupOps`.
 -/
 import DemesVerif.Proofs.MsAccInvBase
+import DemesVerif.Proofs.FromMsFrag3Sem
 namespace Demes.Proofs.MsAcc
 open Demes Demes.Ms Demes.Spec Demes.Spec.MsSem Demes.Spec.C08 Demes.Proofs.FromMs
 
@@ -61,11 +62,12 @@ theorem groupX_split {T' N0 : Q} {n0 : Nat} {s0 : BState} {allOps : List MOp}
     obtain ⟨k, e1, e2, o, ho, e3⟩ := hx.ancTgt j d hd hjs hj0
     exact ⟨k, e1, e2, o, List.mem_append_left _ ho, e3⟩
 
-theorem groupX_join {T' : Q} {n0 : Nat} {s0 : BState} {allOps : List MOp}
+/-- `-ej a k` that is not an admixture (`NJT`: no earlier move has `a` as its target) -/
+theorem groupX_join' {T' : Q} {n0 : Nat} {s0 : BState} {allOps : List MOp}
     {s s' : BState} {g : GState} {L : List (Nat × Row)} {done : List MOp} {pend : Option (Nat × Q)}
     {tq : Q} {a k : Nat} {rest : List Cmd} {d' : BDeme}
     (h : GroupInv T' n0 s0 allOps s g L done pend (.join tq a k :: rest)) (hx : GroupX s0 s done pend)
-    (hns : NSAT allOps) (hpa : ∀ i q, pend = some (i, q) → a ≠ s.numDemes)
+    (hns : NJT allOps) (hpa : ∀ i q, pend = some (i, q) → a ≠ s.numDemes)
     (ha1 : 1 ≤ a) (hk1 : 1 ≤ k) (hak : a ≠ k) (hkj : s.joined.contains (k - 1) = false)
     (hal : a - 1 < s.demes.length) (hanc : d'.ancestors = some [Ms.demeName (k - 1)])
     (hde : s'.demes = s.demes.set (a - 1) d') (_hnum : s'.numDemes = s.numDemes)
@@ -90,9 +92,9 @@ theorem groupX_join {T' : Q} {n0 : Nat} {s0 : BState} {allOps : List MOp}
     rcases List.mem_append.mp ho with ho | ho
     · rw [hx.tgtAlive o ho]
       have hne : o.2.1 ≠ a := by
-        unfold NSAT at hns
+        unfold NJT at hns
         rw [hall, List.pairwise_append] at hns
-        exact hns.2.2 o ho (a, k, 1) (List.mem_cons_self ..)
+        exact hns.2.2 o ho (a, k, 1) (List.mem_cons_self ..) rfl
       obtain ⟨_, b2, _⟩ := pos1 o ho
       have : ¬ o.2.1 - 1 = a - 1 := by omega
       simp [this]
@@ -119,6 +121,19 @@ theorem groupX_join {T' : Q} {n0 : Nat} {s0 : BState} {allOps : List MOp}
         simpa [this] using hjs
       obtain ⟨k', e1, e2, o, ho, e3⟩ := hx.ancTgt j d hd hjs' hj0
       exact ⟨k', e1, e2, o, List.mem_append_left _ (List.mem_append_left _ ho), e3⟩
+
+/-- `groupX_join'` from `NSAT` -/
+theorem groupX_join {T' : Q} {n0 : Nat} {s0 : BState} {allOps : List MOp}
+    {s s' : BState} {g : GState} {L : List (Nat × Row)} {done : List MOp} {pend : Option (Nat × Q)}
+    {tq : Q} {a k : Nat} {rest : List Cmd} {d' : BDeme}
+    (h : GroupInv T' n0 s0 allOps s g L done pend (.join tq a k :: rest)) (hx : GroupX s0 s done pend)
+    (hns : NSAT allOps) (hpa : ∀ i q, pend = some (i, q) → a ≠ s.numDemes)
+    (ha1 : 1 ≤ a) (hk1 : 1 ≤ k) (hak : a ≠ k) (hkj : s.joined.contains (k - 1) = false)
+    (hal : a - 1 < s.demes.length) (hanc : d'.ancestors = some [Ms.demeName (k - 1)])
+    (hde : s'.demes = s.demes.set (a - 1) d') (hnum : s'.numDemes = s.numDemes)
+    (hjo : s'.joined = s.joined ++ [a - 1]) :
+    GroupX s0 s' (done ++ flushOp s.numDemes pend ++ [(a, k, 1)]) none :=
+  groupX_join' h hx (njt_of_nsat hns) hpa ha1 hk1 hak hkj hal hanc hde hnum hjo
 
 theorem groupX_admix {T' : Q} {n0 : Nat} {s0 : BState} {allOps : List MOp}
     {s s' : BState} {g : GState} {L : List (Nat × Row)} {done : List MOp} {i : Nat} {q : Q}
@@ -167,12 +182,12 @@ theorem groupX_admix {T' : Q} {n0 : Nat} {s0 : BState} {allOps : List MOp}
 
 /-! ## one option: `GroupInv` and `GroupX` together -/
 
-theorem stepEvent_groupInvX {N0 T T' : Q} {n0 : Nat} {s0 : BState} {allOps : List MOp}
+theorem stepEvent_groupInvX' {N0 T T' : Q} {n0 : Nat} {s0 : BState} {allOps : List MOp}
     {s s' : BState} {g g' : GState} {σ σ' : St} {L L' : List (Nat × Row)} {ev : Event Num} {c : Cmd}
     {rest : List Cmd} {done : List MOp} {pend : Option (Nat × Q)}
     (hsim : SizeSim T s σ) (hc : cmdOf ev = some c)
     (hm : stepEvent N0 T' (s, g) ev = .ok (s', g')) (hs : Spec.MsSem.step N0 (σ, L) c = .ok (σ', L'))
-    (hns : NSAT allOps) (hp : FracOK c)
+    (hns : NJT allOps) (hp : FracOK c)
     (h : GroupInv T' n0 s0 allOps s g L done pend (c :: rest)) (hx : GroupX s0 s done pend) :
     ∃ done' pend', GroupInv T' n0 s0 allOps s' g' L' done' pend' rest ∧ GroupX s0 s' done' pend' := by
   have hlenD : s.demes.length = s.numDemes := by rw [hsim.len, hsim.num]
@@ -229,11 +244,11 @@ theorem stepEvent_groupInvX {N0 T T' : Q} {n0 : Nat} {s0 : BState} {allOps : Lis
             (by rw [hidx]; show _ ++ _ = _; rw [hfr.2.2.1]) hfr.2.2.2 (by rw [hidx, hjdx]) hL,
             groupX_admix h hx (by omega) (by omega) (by rw [hjdx]; exact r5) (by rw [hidx]; exact hal) hd'a
               (by rw [hidx]; exact hfr.1) hfr.2.1 (by rw [hidx]; show _ ++ _ = _; rw [hfr.2.2.1])⟩
-        · exact ⟨_, _, groupInv_join h hns (fun i0 q0 hpe hin => hadm ⟨i0, q0, hpe, hin⟩)
+        · exact ⟨_, _, groupInv_join' h hns (fun i0 q0 hpe hin => hadm ⟨i0, q0, hpe, hin⟩)
             (by omega) (by omega) (by omega) (by omega) hij (by rw [hidx]; exact q5) (by rw [hjdx]; exact r5)
             (by rw [hidx]; exact hd) hdinf hd'f (by rw [hidx]; exact hfr.1) hfr.2.1
             (by rw [hidx]; show _ ++ _ = _; rw [hfr.2.2.1]) hfr.2.2.2 (by rw [hidx, hjdx]) hL,
-            groupX_join h hx hns (fun i0 q0 hpe hin => hadm ⟨i0, q0, hpe, hin⟩) (by omega) (by omega) hij
+            groupX_join' h hx hns (fun i0 q0 hpe hin => hadm ⟨i0, q0, hpe, hin⟩) (by omega) (by omega) hij
               (by rw [hjdx]; exact r5) (by rw [hidx]; exact hal) hd'a (by rw [hidx]; exact hfr.1) hfr.2.1
               (by rw [hidx]; show _ ++ _ = _; rw [hfr.2.2.1])⟩
       | _ => cases hj
@@ -247,8 +262,19 @@ theorem stepEvent_groupInvX {N0 T T' : Q} {n0 : Nat} {s0 : BState} {allOps : Lis
       exact ⟨done, pend, groupInv_nonmove hcm e2 f1 f2 f3 f4 h,
         groupX_nonmove e2 f1 (fun j hj => (hjd j hj).2) hx⟩
 
-/-- all options of the group -/
-theorem events_groupInvX {N0 T' : Q} {n0 : Nat} {s0 : BState} {allOps : List MOp} (hns : NSAT allOps) :
+/-- `stepEvent_groupInvX'` from `NSAT` -/
+theorem stepEvent_groupInvX {N0 T T' : Q} {n0 : Nat} {s0 : BState} {allOps : List MOp}
+    {s s' : BState} {g g' : GState} {σ σ' : St} {L L' : List (Nat × Row)} {ev : Event Num} {c : Cmd}
+    {rest : List Cmd} {done : List MOp} {pend : Option (Nat × Q)}
+    (hsim : SizeSim T s σ) (hc : cmdOf ev = some c)
+    (hm : stepEvent N0 T' (s, g) ev = .ok (s', g')) (hs : Spec.MsSem.step N0 (σ, L) c = .ok (σ', L'))
+    (hns : NSAT allOps) (hp : FracOK c)
+    (h : GroupInv T' n0 s0 allOps s g L done pend (c :: rest)) (hx : GroupX s0 s done pend) :
+    ∃ done' pend', GroupInv T' n0 s0 allOps s' g' L' done' pend' rest ∧ GroupX s0 s' done' pend' :=
+  stepEvent_groupInvX' hsim hc hm hs (njt_of_nsat hns) hp h hx
+
+/-- all options of the group (`NJT`: either fragment) -/
+theorem events_groupInvX' {N0 T' : Q} {n0 : Nat} {s0 : BState} {allOps : List MOp} (hns : NJT allOps) :
     ∀ (evs : List (Event Num)) {T : Q} {s s' : BState} {g g' : GState} {σ σ' : St}
       {L L' : List (Nat × Row)} {done : List MOp} {pend : Option (Nat × Q)},
     SizeSim T s σ → T ≤ T' → (∀ e ∈ evs, HasCmd e) → (∀ e ∈ evs, 4 * N0 * (cmdOfD e).t = T') →
@@ -276,11 +302,25 @@ theorem events_groupInvX {N0 T' : Q} {n0 : Nat} {s0 : BState} {allOps : List MOp
     have ht := htime e (List.mem_cons_self ..)
     have hsim' := stepEvent_sizeSim hsim hT he ht.symm h1 hs1
     obtain ⟨done1, pend1, hinv1, hx1⟩ :=
-      stepEvent_groupInvX hsim he h1 hs1 hns (hfr e (List.mem_cons_self ..)) hinv hx
+      stepEvent_groupInvX' hsim he h1 hs1 hns (hfr e (List.mem_cons_self ..)) hinv hx
     obtain ⟨hrel1, hlen1⟩ := stepEvent_lm evs hsim he h1 hs1 hrel hlen
     exact ih hsim' (Rat.le_refl) (fun x hx => hall x (List.mem_cons_of_mem _ hx))
       (fun x hx => htime x (List.mem_cons_of_mem _ hx)) (fun x hx => hfr x (List.mem_cons_of_mem _ hx))
       hinv1 hx1 hrel1 hlen1 hm hs
+
+/-- all options of the group -/
+theorem events_groupInvX {N0 T' : Q} {n0 : Nat} {s0 : BState} {allOps : List MOp} (hns : NSAT allOps) :
+    ∀ (evs : List (Event Num)) {T : Q} {s s' : BState} {g g' : GState} {σ σ' : St}
+      {L L' : List (Nat × Row)} {done : List MOp} {pend : Option (Nat × Q)},
+    SizeSim T s σ → T ≤ T' → (∀ e ∈ evs, HasCmd e) → (∀ e ∈ evs, 4 * N0 * (cmdOfD e).t = T') →
+    (∀ e ∈ evs, FracOK (cmdOfD e)) →
+    GroupInv T' n0 s0 allOps s g L done pend (evs.map cmdOfD) → GroupX s0 s done pend →
+    LmRel g.lm L → (∀ row ∈ g.lm, row.length = s.numDemes + (evs.filter isSplit).length) →
+    evs.foldlM (stepEvent N0 T') (s, g) = .ok (s', g') →
+    (evs.map cmdOfD).foldlM (Spec.MsSem.step N0) (σ, L) = .ok (σ', L') →
+    ∃ done' pend', SizeSim T' s' σ' ∧ GroupInv T' n0 s0 allOps s' g' L' done' pend' []
+      ∧ GroupX s0 s' done' pend' ∧ LmRel g'.lm L' ∧ ∀ row ∈ g'.lm, row.length = s'.numDemes :=
+  events_groupInvX' (njt_of_nsat hns)
 
 theorem groupX_init (s : BState) : GroupX s s [] none := by
   refine ⟨?_, ?_, ?_⟩
@@ -298,6 +338,29 @@ structure GroupEndX (s s1 : BState) (ops : List MOp) : Prop where
   ancTgt : ∀ (j : Nat) (d : BDeme), s1.demes[j]? = some d → s1.joined.contains j = true →
     s.joined.contains j = false → ∃ k, d.ancestors = some [Ms.demeName k] ∧ k ≠ j ∧ ∃ o ∈ ops, o.2.1 = k + 1
 
+/-- `group_end_ok` of C08 (a group of either fragment, `GroupOK`) with `GroupEndX` -/
+theorem group_endX_ok {N0 T T' : Q} {s s1 : BState} {g1 : GState} {σ σ1 : St} {L1 : List (Nat × Row)}
+    {evs : List (Event Num)}
+    (hsim : SizeSim T s σ) (hT : T ≤ T') (hall : ∀ e ∈ evs, HasCmd e)
+    (htime : ∀ e ∈ evs, 4 * N0 * (cmdOfD e).t = T')
+    (hm : evs.foldlM (stepEvent N0 T') (s, { lm := initLm s evs, params := [] }) = .ok (s1, g1))
+    (hs : (evs.map cmdOfD).foldlM (Spec.MsSem.step N0) (σ, initL σ) = .ok (σ1, L1))
+    (hok : GroupOK s.numDemes (evs.map cmdOfD)) (hnames : NameInv s) :
+    SizeSim T' s1 σ1 ∧ GroupEnd T' s σ s1 g1 L1 (groupOps s.numDemes (evs.map cmdOfD))
+      ∧ GroupEndX s s1 (groupOps s.numDemes (evs.map cmdOfD)) := by
+  have hns : NJT (groupOps s.numDemes (evs.map cmdOfD)) := njt_of_frag hok.1
+  have hfr : ∀ e ∈ evs, FracOK (cmdOfD e) :=
+    fun e he => hok.2 _ (List.mem_map.mpr ⟨e, he, rfl⟩)
+  obtain ⟨done, pend, hsim1, hinv, hx, _, _⟩ := events_groupInvX' hns evs hsim hT hall htime hfr
+    (groupInv_init hsim _ _ rfl) (groupX_init s) (initLm_rel hsim evs) (initLm_length s evs) hm hs
+  have hlink : groupOps s.numDemes (evs.map cmdOfD) = done ++ flushOp s1.numDemes pend := hinv.link
+  obtain ⟨hsim1', he⟩ := group_end_ok hsim hT hall htime hm hs hok hnames
+  refine ⟨hsim1, he, ?_, ?_⟩
+  · rw [hlink]; exact hx.tgtAlive
+  · intro j d hd h1 h2
+    obtain ⟨k, e1, e2, o, ho, e3⟩ := hx.ancTgt j d hd h1 h2
+    exact ⟨k, e1, e2, o, by rw [hlink]; exact List.mem_append_left _ ho, e3⟩
+
 /-- `group_end` of C08 with `GroupEndX` -/
 theorem group_endX {N0 T T' : Q} {s s1 : BState} {g1 : GState} {σ σ1 : St} {L1 : List (Nat × Row)}
     {evs : List (Event Num)}
@@ -307,23 +370,8 @@ theorem group_endX {N0 T T' : Q} {s s1 : BState} {g1 : GState} {σ σ1 : St} {L1
     (hs : (evs.map cmdOfD).foldlM (Spec.MsSem.step N0) (σ, initL σ) = .ok (σ1, L1))
     (hgood : GoodGroup s.numDemes (evs.map cmdOfD) = true) (hnames : NameInv s) :
     SizeSim T' s1 σ1 ∧ GroupEnd T' s σ s1 g1 L1 (groupOps s.numDemes (evs.map cmdOfD))
-      ∧ GroupEndX s s1 (groupOps s.numDemes (evs.map cmdOfD)) := by
-  have hns : NSAT (groupOps s.numDemes (evs.map cmdOfD)) := by
-    apply nsat_of_bool
-    unfold GoodGroup at hgood
-    simp only [Bool.and_eq_true] at hgood
-    exact hgood.1.1
-  have hfr : ∀ e ∈ evs, FracOK (cmdOfD e) :=
-    fun e he => fracOK_of_good hgood _ (List.mem_map.mpr ⟨e, he, rfl⟩)
-  obtain ⟨done, pend, hsim1, hinv, hx, _, _⟩ := events_groupInvX hns evs hsim hT hall htime hfr
-    (groupInv_init hsim _ _ rfl) (groupX_init s) (initLm_rel hsim evs) (initLm_length s evs) hm hs
-  have hlink : groupOps s.numDemes (evs.map cmdOfD) = done ++ flushOp s1.numDemes pend := hinv.link
-  obtain ⟨hsim1', he⟩ := group_end hsim hT hall htime hm hs hgood hnames
-  refine ⟨hsim1, he, ?_, ?_⟩
-  · rw [hlink]; exact hx.tgtAlive
-  · intro j d hd h1 h2
-    obtain ⟨k, e1, e2, o, ho, e3⟩ := hx.ancTgt j d hd h1 h2
-    exact ⟨k, e1, e2, o, by rw [hlink]; exact List.mem_append_left _ ho, e3⟩
+      ∧ GroupEndX s s1 (groupOps s.numDemes (evs.map cmdOfD)) :=
+  group_endX_ok hsim hT hall htime hm hs (groupOK_of_good hgood) hnames
 
 /-! ## facts about `groupOps` -/
 
